@@ -19,7 +19,7 @@ Print Assumptions C02_update_enforces_rules.
    without auto-borrow, cancellations, loans, repayments, listings) preserves it, whether the
    operation succeeds or raises. *)
 Theorem C02_step_preserves : forall c s o, acct_good (s_acct s) -> acct_good (s_acct (fst (step c s o))).
-Proof. exact step_G. Qed.
+Proof. exact step_good. Qed.
 Print Assumptions C02_step_preserves.
 
 (* Hence in every reachable state, for every configuration, every history of operations of any length
